@@ -121,6 +121,12 @@ Fixpoint bfs (fuel : nat) (scope : file) (decl : decl) (c : context) {struct fue
                                  then bfs fuel' scope typedef_decl c
                                  else POk c
                              end
+                         | FixedEnum enum_id _ =>
+                             (* the enum of a fixed field is visited before its user *)
+                             match lookup_decl scope enum_id with
+                             | Some (DEnum _ _ _ as enum_decl) => bfs fuel' scope enum_decl c
+                             | _ => POk c
+                             end
                          | _ => POk c
                          end in
                        fields rest c
